@@ -210,6 +210,34 @@ func GetRawPB(ctx *fiber.Ctx) (RateLimitedBuffer, error) {
 	return decompressPayload(buf)
 }
 
+// LimitDecoded caps what can be read from a decompressed request body at the payload limit
+// (input_buffer_mb / 2): a body that inflates beyond it fails with a 400 error.
+func LimitDecoded(r io.Reader) io.Reader {
+	return &limitedDecoded{r: r, left: int64(pbPool.limit)}
+}
+
+var errDecodedTooLong = custom_errors.New400Error("decompressed request too long")
+
+type limitedDecoded struct {
+	r    io.Reader
+	left int64
+}
+
+func (l *limitedDecoded) Read(p []byte) (int, error) {
+	if l.left < 0 {
+		return 0, errDecodedTooLong
+	}
+	if int64(len(p)) > l.left+1 {
+		p = p[:l.left+1]
+	}
+	n, err := l.r.Read(p)
+	l.left -= int64(n)
+	if l.left < 0 { // the byte beyond the limit
+		return n - 1, errDecodedTooLong
+	}
+	return n, err
+}
+
 func SetGlobalLimit(limit int) {
 	requestPool.limit = limit / 2
 	requestPool.rateLimiter = semaphore.NewWeighted(int64(limit / 2))
